@@ -537,5 +537,9 @@ func (this *partition) isOnNode(nodeId uint64) bool {
 
 func (this *partition) randomNodeId() uint64 {
 	nodeIds := this.nodeIds()
+	if len(nodeIds) == 0 {
+		// No replica left: there is no node with this id, callers fail to reach it
+		return 0
+	}
 	return nodeIds[rand.Intn(len(nodeIds))]
 }
